@@ -48,6 +48,10 @@ type constructorNode struct {
 	// Whether the constructor owned by this node was already called.
 	called bool
 
+	// Whether the constructor owned by this node is being called right now:
+	// its arguments are being built or the function is running.
+	onStack bool
+
 	// Type information about constructor parameters.
 	paramList paramList
 
@@ -144,6 +148,19 @@ func (n *constructorNode) Call(c containerStore) (err error) {
 	if n.called {
 		return nil
 	}
+
+	// Resolution came back to a constructor whose arguments are still being
+	// built. Such a cycle is invisible to the per-scope graphs when it runs
+	// through constructors exported from sibling scopes or through a
+	// decorator; following it would never terminate.
+	if n.onStack {
+		return errCycleDetected{
+			Path:  []cycleErrPathEntry{{Key: key{t: n.ctype}, Func: n.location}},
+			scope: n.s,
+		}
+	}
+	n.onStack = true
+	defer func() { n.onStack = false }()
 
 	if err := shallowCheckDependencies(c, n.paramList); err != nil {
 		return errMissingDependencies{
